@@ -6,6 +6,7 @@ import InfluxQL.Lemmas.RegexRoundTrip
 import InfluxQL.Lemmas.NumberRoundTrip
 import InfluxQL.Props.C01
 import InfluxQL.Props.C08
+import InfluxQL.Props.C06
 /-
 C02 — printed statements re-parse to the same AST.
 
@@ -116,6 +117,145 @@ example : escapeSlashes "a/b\\.c".toList = "a\\/b\\.c".toList := by decide
 /-- Why the hypothesis is needed: the source `a\` is printed as `/a\/`, whose last slash the
 scanner takes for an escaped one. -/
 example : (scanRegex (Cursor.ofRunes "/a\\/".toList)).1.tok = .BADREGEX := by decide
+
+/-! ## a first statement family: the single-name statements
+
+`DROP DATABASE n`, `DROP MEASUREMENT n`, `DROP USER n`, `SHOW GRANTS FOR n` print as their
+keywords, one blank and `QuoteIdent(n)`. The keyword prefix is handled at token level
+(`C01.dispatch_step_sub` / `dispatch_step_handler`); from the handler on the theorem is about the
+text. -/
+
+/-- `ParseIdent` when, after one whitespace lexeme, the scanner is at an identifier. -/
+theorem parseIdent_after_blank (s : PState) (name : Str) (hn : s.n = 0)
+    (hws : (scan s.r).1.tok = .WS) (hid : (scan (scan s.r).2).1.tok = .IDENT)
+    (hlit : (scan (scan s.r).2).1.lit = name) :
+    ∃ s', parseIdent.run s = .ok (name, s') ∧ s'.r = (scan (scan s.r).2).2 ∧ s'.n = 0 := by
+  refine ⟨{ s with r := (scan (scan s.r).2).2, buf := ((scan (scan s.r).2).1 :: ((scan s.r).1 :: s.buf).take 3).take 3 },
+    ?_, rfl, hn⟩
+  unfold parseIdent
+  rw [P.run_bind _ _ s _ _ (scanIW_skip_ws s hn hws (by rw [hid]; decide) (by rw [hid]; decide) (by rw [hid]; decide))]
+  simp [hid, hlit, StateT.run, pure, StateT.pure, Except.pure]
+
+/-- The four handlers that read exactly one name. -/
+def singleNameHandlers : List (Handler × (Str → Statement)) :=
+  [(.parseDropDatabaseStatement, .dropDatabase), (.parseDropMeasurementStatement, .dropMeasurement),
+   (.parseDropUserStatement, .dropUser), (.parseGrantsForUserStatement, .showGrantsForUser)]
+
+/-- What these statements print after their keywords. -/
+theorem singleName_print (name : Str) :
+    (Statement.dropDatabase name).print = "DROP DATABASE ".toList ++ quoteIdent [name] ∧
+    (Statement.dropMeasurement name).print = "DROP MEASUREMENT ".toList ++ quoteIdent [name] ∧
+    (Statement.dropUser name).print = "DROP USER ".toList ++ quoteIdent [name] ∧
+    (Statement.showGrantsForUser name).print = "SHOW GRANTS FOR ".toList ++ quoteIdent [name] :=
+  ⟨rfl, rfl, rfl, rfl⟩
+
+/-- **Print → parse for the single-name statements, from the handler on (partial: the keyword
+prefix is covered at token level only).** For a name that is printed in quotes (it needs them, or
+is empty) and is expressible (no NUL, no CR): the handler, started with nothing pushed back on the
+text `' ' ++ QuoteIdent(name) ++ k`, returns the statement with exactly that name and stops right
+after the closing quote. -/
+theorem singleName_quoted_print_parse_partial (fuel : Nat) (h : Handler) (C : Str → Statement)
+    (hh : (h, C) ∈ singleNameHandlers) (s : PState) (name k tail : Str) (hn : s.n = 0)
+    (hq : (identNeedsQuotes name || name == []) = true) (hex : Expressible name)
+    (hr : s.r.rest.map Prod.fst = foldCR (' ' :: (quoteIdent [name] ++ k)) ++ tail) :
+    ∃ s', (runHandler fuel h).run s = .ok (C name, s') ∧ s'.n = 0 ∧
+      s'.r.rest.map Prod.fst = foldCR k ++ tail := by
+  rw [C06.quoteIdent_single, hq] at hr
+  simp only [↓reduceIte, List.cons_append, List.append_assoc, List.nil_append] at hr
+  rw [foldCR_cons_of_ne _ _ (by decide), foldCR_cons_of_ne _ _ (by decide)] at hr
+  simp only [List.cons_append] at hr
+  obtain ⟨b1, l1, hrest, hb1, hl1⟩ := List.map_eq_cons_iff.mp hr
+  obtain ⟨b2, l2, rfl, hb2, hl2⟩ := List.map_eq_cons_iff.mp hl1
+  obtain ⟨c1, q1⟩ := b1
+  obtain ⟨c2, q2⟩ := b2
+  simp only at hb1 hb2
+  subst hb1 hb2
+  have hblank := scan_blank s.r q1 q2 '"' l2 hrest (by decide) (by decide)
+  have hquoted := C06.scan_quotedIdent_contained (scan s.r).2 name k tail (by
+    rw [hblank.2, foldCR_cons_of_ne _ _ (by decide)]
+    simp only [List.map_cons, List.cons_append, hl2])
+  rcases hquoted with ⟨_, hid, hlit, hrest'⟩ | ⟨hne, _⟩
+  · obtain ⟨s', hrun, hr', hn'⟩ := parseIdent_after_blank s name hn hblank.1 hid hlit
+    refine ⟨s', ?_, hn', by rw [hr']; exact hrest'⟩
+    simp only [singleNameHandlers, List.mem_cons, Prod.mk.injEq, List.not_mem_nil, or_false] at hh
+    rcases hh with ⟨rfl, rfl⟩ | ⟨rfl, rfl⟩ | ⟨rfl, rfl⟩ | ⟨rfl, rfl⟩ <;>
+      (simp only [runHandler]; rw [P.run_bind _ _ s name s' hrun]; rfl)
+  · exact absurd hex hne
+
+theorem identFirst_not_blank {c : Char} (h : isIdentFirstChar c = true) :
+    isWhitespace c = false ∧ c ≠ eofRune ∧ c ≠ '\r' := by
+  have hn : 65 ≤ c.toNat := by
+    unfold isIdentFirstChar isLetter at h
+    simp only [Bool.or_eq_true, Bool.and_eq_true, decide_eq_true_eq, beq_iff_eq] at h
+    omega
+  refine ⟨?_, ?_, ?_⟩
+  · unfold isWhitespace
+    simp only [Bool.or_eq_false_iff, beq_eq_false_iff_ne, ne_eq]
+    omega
+  · intro he; rw [he] at hn; exact absurd hn (by decide)
+  · intro he; rw [he] at hn; exact absurd hn (by decide)
+
+/-- **The same for a name that is printed bare** (a non-keyword identifier): here the text after
+the name must not continue it — it starts with a rune `x` that is no identifier rune, no `"` and
+not the end of input (partial in that sense too: at the very end of the input the NUL sentinel is
+swallowed by the scanner, which C05 records). -/
+theorem singleName_bare_print_parse_partial (fuel : Nat) (h : Handler) (C : Str → Statement)
+    (hh : (h, C) ∈ singleNameHandlers) (s : PState) (name : Str) (x : Char) (t : Str) (hn : s.n = 0)
+    (hne : name ≠ []) (hq : identNeedsQuotes name = false)
+    (hx : isIdentChar x = false) (hxq : x ≠ '"') (hxe : x ≠ eofRune)
+    (hr : s.r.rest.map Prod.fst = ' ' :: (quoteIdent [name] ++ x :: t)) :
+    ∃ s', (runHandler fuel h).run s = .ok (C name, s') ∧ s'.n = 0 ∧ s'.r.rest.map Prod.fst = x :: t := by
+  obtain ⟨_, c, tl, hname, hc, _⟩ := (identNeedsQuotes_false_iff name hne).mp hq
+  have hqi : quoteIdent [name] = name := by
+    rw [C06.quoteIdent_single]
+    have : (name == []) = false := by simpa using hne
+    simp only [hq, this, Bool.or_self, Bool.false_eq_true, ↓reduceIte]
+    exact C06.esc_identChars name (by
+      intro y hy
+      obtain ⟨_, c', tl', hname', hc', htl'⟩ := (identNeedsQuotes_false_iff name hne).mp hq
+      rw [hname'] at hy
+      rcases List.mem_cons.mp hy with rfl | hy
+      · unfold isIdentFirstChar at hc'
+        unfold isIdentChar
+        simp only [Bool.or_eq_true] at hc' ⊢
+        rcases hc' with h1 | h1
+        · exact Or.inl (Or.inl h1)
+        · exact Or.inr h1
+      · exact htl' y hy)
+  rw [hqi, hname] at hr
+  simp only [List.cons_append] at hr
+  obtain ⟨b1, l1, hrest, hb1, hl1⟩ := List.map_eq_cons_iff.mp hr
+  obtain ⟨b2, l2, rfl, hb2, hl2⟩ := List.map_eq_cons_iff.mp hl1
+  obtain ⟨c1, q1⟩ := b1
+  obtain ⟨c2, q2⟩ := b2
+  simp only at hb1 hb2
+  subst hb1 hb2
+  have hcb := identFirst_not_blank hc
+  have hblank := scan_blank s.r q1 q2 c2 l2 hrest hcb.1 hcb.2.1
+  have hbare := scan_bareIdent (scan s.r).2 name x t hne hq (by
+    rw [hblank.2, hname]
+    simp only [List.map_cons, List.cons_append, hl2]) hx hxq hxe
+  obtain ⟨s', hrun, hr', hn'⟩ := parseIdent_after_blank s name hn hblank.1 hbare.1 hbare.2.1
+  refine ⟨s', ?_, hn', by rw [hr']; exact hbare.2.2⟩
+  simp only [singleNameHandlers, List.mem_cons, Prod.mk.injEq, List.not_mem_nil, or_false] at hh
+  rcases hh with ⟨rfl, rfl⟩ | ⟨rfl, rfl⟩ | ⟨rfl, rfl⟩ | ⟨rfl, rfl⟩ <;>
+    (simp only [runHandler]; rw [P.run_bind _ _ s name s' hrun]; rfl)
+
+/-- Non-vacuity: `DROP DATABASE "a b"` after its keywords. -/
+example : ∃ s', (runHandler 10 .parseDropDatabaseStatement).run
+      (PState.init (' ' :: (quoteIdent ["a b".toList] ++ [])) [] []) = .ok (.dropDatabase "a b".toList, s') := by
+  obtain ⟨s', h, _⟩ := singleName_quoted_print_parse_partial 10 .parseDropDatabaseStatement .dropDatabase
+    (by simp [singleNameHandlers]) (PState.init (' ' :: (quoteIdent ["a b".toList] ++ [])) [] []) "a b".toList [] [eofRune]
+    rfl (by decide) (by decide) (by simp [PState.init, Cursor.ofRunes, stampRunes_map_fst])
+  exact ⟨s', h⟩
+
+/-- Non-vacuity: `SHOW GRANTS FOR cpu;` after its keywords. -/
+example : ∃ s', (runHandler 10 .parseGrantsForUserStatement).run
+      (PState.init " cpu;".toList [] []) = .ok (.showGrantsForUser "cpu".toList, s') := by
+  obtain ⟨s', h, _⟩ := singleName_bare_print_parse_partial 10 .parseGrantsForUserStatement .showGrantsForUser
+    (by simp [singleNameHandlers]) (PState.init " cpu;".toList [] []) "cpu".toList ';' [eofRune]
+    rfl (by decide) (by decide) (by decide) (by decide) (by decide) (by decide)
+  exact ⟨s', h⟩
 
 /-! ## passwords -/
 
